@@ -13,6 +13,41 @@ EMIT_ALL = ["argparse", "class", "function", "json_schema", "pydantic", "sqlalch
 # kinds whose emitter call works in exmod on the unchanged tree (the other three raise TypeError before any write)
 EMIT_WORKING = ["argparse", "class", "function", "sqlalchemy_table", "sqlalchemy_hybrid"]
 
+# --- wide name pools (legal identifiers that are awkward downstream) ---------------------------------------------------
+LONG = "very_long_name_" + "x" * 90 + "_end"  # 109 characters: far below NAME_MAX, far above any column budget
+WIDE_CLASSES = [
+    "TimeoutError", "ConnectionError", "Warning", "Exception", "KeyError",  # builtin exceptions
+    "type", "list", "id", "dict",  # builtins (type is also a soft keyword)
+    "match", "case",  # soft keywords
+    "class_", "def_", "None_", "import_",  # keyword + underscore
+    "_Private", "__Dunder__", "_", "__x",  # leading underscore / dunder-like
+    "Alpha2Beta", "V2", "X11Forward",  # digits inside
+    "Café", "Δelta", "Ünïcode", "名前",  # non-ASCII identifiers
+    "Config", "config", "CONFIG", "Handler", "handler",  # differ only in case
+    "Long" + LONG,
+]
+WIDE_FUNCS = [
+    "format", "filter", "print", "type", "id", "list", "len", "open", "input",  # builtins
+    "match", "case", "type",  # soft keywords
+    "class_", "def_", "lambda_", "return_",  # keyword + underscore
+    "_private", "__dunder__", "_", "__init__", "__call__",  # leading underscore / dunder-like
+    "h2o", "to_utf8", "x1y2",  # digits inside
+    "naïve", "λ", "größe", "число",  # non-ASCII identifiers
+    "config", "Config", "handler", "HANDLER",  # differ only in case
+    LONG,
+]
+WIDE_MODS = [
+    "json", "types", "string", "abc", "ast", "os", "sys",  # stdlib module names (as sub-modules of the package)
+    "class_", "def_", "match", "type",  # keyword + underscore, soft keywords
+    "_private", "__dunder__", "_",  # leading underscore
+    "mod2", "v2x", "a1",  # digits inside
+    "módulo", "λmod", "größe",  # non-ASCII
+    "upper", "UPPER", "Upper",  # differ only in case
+    "m_" + LONG,
+]
+WIDE_SUBS = ["json", "types", "_internal", "__impl__", "v2", "Ünits", "class_", "match", "Sub", "SUB", "p_" + LONG[:60]]
+
+
 CLASS_TPL = '''class {name}(object):
     """
     {name} thing
@@ -47,20 +82,38 @@ def _sym_src(r, name, kind):
     return (CLASS_TPL if kind == "class" else FUNC_TPL).format(name=name, a=a, b=b, n=r.randint(0, 9), s=r.choice(["foo", "bar", "x y"]))
 
 
-def gen_tree(r, force_levels=None, clash=None):
+def gen_tree(r, force_levels=None, clash=None, wide=None):
     """`clash`: None (rarely by chance) / True: put a def whose name starts with its package's exmod module name into an
-    `__init__.py` (the configuration of finding C20-src-init-overwrite)."""
+    `__init__.py` (the configuration of finding C20-src-init-overwrite).
+    `wide`: None (40 % of the trees) / True / False: draw part of the class, function, module and sub-package names from the
+    wide pools (builtins and exceptions, soft keywords, keyword + underscore, leading underscore / dunder-like, digits,
+    non-ASCII, very long, differing only in case, stdlib module names)."""
     top = r.choice(TOPS)
     levels = force_levels or r.choice([1, 1, 2, 2, 3])
+    wide = (r.random() < 0.4) if wide is None else wide
+    p_wide = r.choice([0.3, 0.6, 1.0]) if wide else 0.0
     mods_left = MODS[:]
     r.shuffle(mods_left)
     subs_left = SUBS[:]
     r.shuffle(subs_left)
+    if wide:
+        wm, ws = WIDE_MODS[:], WIDE_SUBS[:]
+        r.shuffle(wm)
+        r.shuffle(ws)
+        # interleave: popping from the end takes wide names with probability ~p_wide
+        mods_left = [x for pair in zip(mods_left, wm) for x in (pair if r.random() < p_wide else pair[::-1])]
+        subs_left = [x for pair in zip(subs_left, ws) for x in (pair if r.random() < p_wide else pair[::-1])]
+    used_names = set()
     files, packages, modules, symbols = {}, [], [], {}
     all_syms = []  # (module fqn, name) available for cross imports (already generated ⇒ importable without a cycle)
 
+    used_stems = set()  # a module file and a sub-package of the same name would shadow each other: keep them distinct
+
     def mk_module(pkg_fqn, pkg_dir):
         stem = mods_left.pop()
+        while stem in used_stems and mods_left:
+            stem = mods_left.pop()
+        used_stems.add(stem)
         fqn = pkg_fqn + "." + stem
         n = r.choice([1, 1, 2])
         names = []
@@ -86,6 +139,13 @@ def gen_tree(r, force_levels=None, clash=None):
         for i in range(n):
             kind = r.choice(["class", "function"])
             name = (stem.capitalize() + ("" if i == 0 else "Two")) if kind == "class" else (stem + ("_fn" if i == 0 else "_other"))
+            if r.random() < p_wide:
+                cand = [x for x in (WIDE_CLASSES if kind == "class" else WIDE_FUNCS) if x not in used_names]
+                if cand:
+                    name = r.choice(cand)
+            if name in used_names or name in names:
+                name = name + "_%d" % len(used_names)
+            used_names.add(name)
             if r.random() < 0.06 and i == 0:
                 # a symbol called like a sibling module (find_module_filepath then resolves to that module's file)
                 sib = [m for m in modules if m.startswith(pkg_fqn + ".") and m.count(".") == pkg_fqn.count(".") + 1]
@@ -116,6 +176,11 @@ def gen_tree(r, force_levels=None, clash=None):
                 if not subs_left:
                     break
                 s = subs_left.pop()
+                while s in used_stems and subs_left:
+                    s = subs_left.pop()
+                if s in used_stems:
+                    break
+                used_stems.add(s)
                 sub_exmod_name = (s if level == 1 else (exmod_name + "." + s))
                 children_imports += mk_package(fqn + "." + s, pdir + "/" + s, level + 1, sub_exmod_name)
         own = []
@@ -170,7 +235,7 @@ def gen_tree(r, force_levels=None, clash=None):
         return own + children_imports
 
     mk_package(top, top, 1, top)
-    return {"top": top, "files": files, "packages": packages, "modules": modules, "symbols": symbols, "levels": levels}
+    return {"top": top, "files": files, "packages": packages, "modules": modules, "symbols": symbols, "levels": levels, "wide": bool(wide)}
 
 
 def gen_config(r, tree, emit_pool=None):
